@@ -471,15 +471,11 @@ class CorrData(AsciiSerializable, SampledData, Broadcastable):
 
             path_prefix = Path(path_prefix)
 
-            write_data(
-                path_prefix.with_suffix(".dat"),
-                self._description_data,
-                zleft=self.binning.left,
-                zright=self.binning.right,
-                data=self.data,
-                error=self.error,
-                closed=str(self.binning.closed),
-            )
+            # the .dat file completes the set: an existing one is removed first
+            # and the new one is moved into place last, an interrupted call never
+            # leaves files of different origin that can be read back together
+            path_data = path_prefix.with_suffix(".dat")
+            path_data.unlink(missing_ok=True)
 
             write_samples(
                 path_prefix.with_suffix(".smp"),
@@ -496,6 +492,18 @@ class CorrData(AsciiSerializable, SampledData, Broadcastable):
                 self._description_covariance,
                 covariance=self.covariance,
             )
+
+            path_temp = path_prefix.with_suffix(".dat.tmp")
+            write_data(
+                path_temp,
+                self._description_data,
+                zleft=self.binning.left,
+                zright=self.binning.right,
+                data=self.data,
+                error=self.error,
+                closed=str(self.binning.closed),
+            )
+            path_temp.rename(path_data)
 
         parallel.COMM.Barrier()
 
